@@ -255,6 +255,12 @@ class Ctx:
                         out.append(SReal(side))
         return out
 
+    def rendering(self):
+        """Symbolic rendering (DESIGN C06/F2): while active, formatting a symbolic number yields a
+        unique placeholder token; `value(token)` maps a token of the produced text back to the number
+        (in concrete mode it parses the printed number)."""
+        return _Rendering(self)
+
     def observe(self, name, value):
         if self.mode != "symbolic":
             self.observed.append((name, _digest(value)))
@@ -276,6 +282,44 @@ class Ctx:
             raise
         except Exception as e:  # noqa: BLE001
             return None, e
+
+
+class _Rendering:
+    OPEN, CLOSE = "\u27e6", "\u27e7"
+
+    def __init__(self, ctx):
+        self.ctx = ctx
+        self.table = []
+
+    def __enter__(self):
+        self.old = sym._FORMAT_HOOK[0]
+
+        def hook(v, spec):
+            self.table.append((v, spec))
+            return f"{self.OPEN}{len(self.table) - 1}{self.CLOSE}"
+
+        if self.ctx.symbolic:
+            sym._FORMAT_HOOK[0] = hook
+        return self
+
+    def __exit__(self, *exc):
+        sym._FORMAT_HOOK[0] = self.old
+        return False
+
+    def value(self, token):
+        token = token.strip()
+        if token.startswith(self.OPEN) and token.endswith(self.CLOSE):
+            return self.table[int(token[1:-1])][0]
+        try:
+            return int(token)
+        except ValueError:
+            return float(token)
+
+    def spec(self, token):
+        token = token.strip()
+        if token.startswith(self.OPEN):
+            return self.table[int(token[1:-1])][1]
+        return None
 
 
 class _Stub:
